@@ -39,7 +39,7 @@ CONSTANTS Base, Count,        \* fixed window b, c
           BufFloor,           \* whole units that fit into the 1 KiB BufWriter (2 for 400-byte units, 64 and more for small ones)
           Hist                \* TRUE = carry the operation history (replay emission)
 
-VARIABLES disk,      \* [act |-> entry, arch |-> [Idx -> entry]]
+VARIABLES disk,      \* [act |-> entry, arch |-> [Idx -> entry], gone |-> BOOLEAN]
           writer,    \* [open |-> BOOLEAN, len |-> Nat, buf |-> records accepted but not flushed]   (LogWriter: BufWriter + len)
           pc, cur, ri, after,
           used,      \* on-start-up trigger consumed in this lifetime
